@@ -80,6 +80,7 @@ var (
 	fRetryDup    = simrt.RegisterCounter("fault_duplicate_delivery")
 	fReqLost     = simrt.RegisterCounter("fault_request_lost")
 	fTruncResp   = simrt.RegisterCounter("fault_response_truncated")
+	cBusy        = simrt.RegisterCounter("op_busy_server_many_connections_and_devices")
 	fProvision   = simrt.RegisterCounter("fault_device_provisioned_after_first_requests")
 	fKEKRotate   = simrt.RegisterCounter("fault_kek_replaced_in_store")
 	fKEKInPlace  = simrt.RegisterCounter("fault_kek_rewritten_in_place")
@@ -582,6 +583,15 @@ func build(sw *sim.World) {
 	r := sim.NewRand(simrt.Raw())
 	nDev := 1 + simrt.Choose(6)
 	nNS := 1 + simrt.Choose(3)
+	// now and then a busy join-server: a dozen network-server connections at
+	// once and dozens of devices (whatever the handler bounds - a pool, a
+	// semaphore, a cache - fills up)
+	busy := simrt.Choose(30) == 1
+	if busy {
+		nDev = 12 + simrt.Choose(36)
+		nNS = 6 + simrt.Choose(10)
+		simrt.Count(cBusy)
+	}
 	w.faults = simrt.Choose(3) != 0
 	w.nNS = nNS
 	for i := 0; i < nDev; i++ {
@@ -685,6 +695,9 @@ func build(sw *sim.World) {
 	for i := 0; i < nNS; i++ {
 		i := i
 		n := 2 + simrt.Choose(12*sim.Scale)
+		if busy {
+			n = 2 + simrt.Choose(4)
+		}
 		sub := simrt.Raw()
 		sw.Spawn(fmt.Sprintf("ns%d", i), func() { nsTask(w, i, netIDs[i], senderIDs[i], n, sub) })
 	}
